@@ -15,6 +15,11 @@
 //	Lx <h> <x> <i> e...    -> comma list of merkle_tree.Lx(x,v,i)
 //	vfy <h> <pi> <ui> <leaf> e... -> VerifyMerkleProof(leaf, Jx(0,v,pi), ui, M(v)) as true/false
 //	copath <i> e...        -> hex of ce.constructMerkleCoPath(v,i) or err
+//	Tall <h> e...          -> T(v,i) for EVERY index i, joined by ";"
+//	Jall <h> <x> e...      -> "Jx(x,v,p)/Lx(x,v,p)" for EVERY page p of size 2^x, joined by ";"
+//	Vall <h> e...          -> for EVERY index i two letters t/f: VerifyMerkleProof of leaf i with J_0(v,i)
+//	                          at index i, and at the wrong index (i+1) mod |v|
+//	Call e...              -> constructMerkleCoPath(v,i) for EVERY index i and for i = |v|, joined by ";"
 //	paged t...             -> work_package.PagedProofs; every token t is a hex pattern repeated to
 //	                          fill one 4104-byte export segment; output: number of pages, then per
 //	                          page "<len>:<hex without trailing zero bytes>"
@@ -214,9 +219,6 @@ func gen(rng *h.Rng, tier string, emit func(string)) {
 			for fi, fl := range flavours {
 				toks := fl.mk(rng, n)
 				v := strings.Join(toks, " ")
-				// in the quick tier the first two flavours sweep every index / page; the other
-				// flavours sweep every index of T and sample the rest
-				full := thorough || fi < 2
 				hs := "b"
 				if fi%3 == 2 {
 					hs = "k"
@@ -236,19 +238,46 @@ func gen(rng *h.Rng, tier string, emit func(string)) {
 				one("Mb " + hs)
 				one("M " + hs)
 				one("C " + hs)
+				// whole-sequence sweeps: every index / every page of every page size in one case
+				one("Tall " + hs)
+				st["index-evals-T"] += n
+				for x := 0; x <= 6; x++ {
+					one("Jall "+hs, x)
+					st["page-evals-JxLx"] += (n + (1 << x) - 1) >> x
+				}
+				one("Vall " + hs)
+				st["index-evals-verify"] += 2 * n
+				one("Call")
+				st["index-evals-copath"] += n + 1
 				if n == 0 {
-					// degenerate: T / Jx / Lx of the empty sequence at index 0
+					// degenerate: T / Jx of the empty sequence at index 0
 					one("T "+hs, 0)
 					for x := 0; x <= 6; x++ {
 						one("Jx "+hs, x, 0)
 					}
 					continue
 				}
+				// single-index cases (replayable one by one): every index for short sequences and
+				// for the thorough tier, the ends and a sample otherwise
+				full := thorough || n <= 12
 				for i := 0; i < n; i++ {
+					if !(full || i == 0 || i == n-1 || rng.Chance(1, 8)) {
+						continue
+					}
 					one("T "+hs, i)
+					one("copath", i)
 					if fi == 1 || fi == 2 {
 						one("Ps", i)
 						one("PI", i)
+					}
+					leaf := toks[i]
+					if leaf == "nil" {
+						leaf = "-"
+					}
+					one("vfy "+hs, i, i, leaf)
+					if rng.Chance(1, 4) { // wrong leaf, wrong index
+						one("vfy "+hs, i, i, randTok(rng, 1+rng.Intn(32)))
+						one("vfy "+hs, i, rng.Intn(n), leaf)
 					}
 				}
 				for x := 0; x <= 6; x++ {
@@ -258,22 +287,6 @@ func gen(rng *h.Rng, tier string, emit func(string)) {
 							one("Jx "+hs, x, p)
 							one("Lx "+hs, x, p)
 						}
-					}
-				}
-				for i := 0; i < n; i++ {
-					if full || i == 0 || i == n-1 || rng.Chance(1, 8) {
-						leaf := toks[i]
-						if leaf == "nil" {
-							leaf = "-"
-						}
-						one("vfy "+hs, i, i, leaf)
-						if rng.Chance(1, 4) { // wrong leaf, wrong index
-							one("vfy "+hs, i, i, randTok(rng, 1+rng.Intn(32)))
-							one("vfy "+hs, i, rng.Intn(n), leaf)
-						}
-					}
-					if full || i == 0 || i == n-1 || rng.Chance(1, 4) {
-						one("copath", i)
 					}
 				}
 				one("copath", n)
@@ -392,6 +405,64 @@ func run(input string) string {
 		ok := false
 		quiet(func() { ok = merkle_tree.VerifyMerkleProof(leaf, proof, int(ui), hf, root) })
 		return mut(v, keep, fmt.Sprint(ok))
+	case "Tall":
+		hf := pickHash(f[1])
+		v := parseElems(f[2:])
+		keep := cloneSeq(v)
+		parts := make([]string, len(v))
+		for i := range v {
+			parts[i] = joinSeq(merkle_tree.T(v, types.U32(i), hf))
+		}
+		return mut(v, keep, "T:"+strings.Join(parts, ";"))
+	case "Jall":
+		hf := pickHash(f[1])
+		x := h.U(f[2])
+		v := parseElems(f[3:])
+		keep := cloneSeq(v)
+		np := (len(v) + (1 << x) - 1) >> x
+		parts := make([]string, np)
+		for p := 0; p < np; p++ {
+			parts[p] = joinHashes(merkle_tree.Jx(types.U8(x), v, types.U32(p), hf)) + "/" +
+				joinHashes(merkle_tree.Lx(types.U8(x), v, types.U32(p), hf))
+		}
+		return mut(v, keep, "J:"+strings.Join(parts, ";"))
+	case "Vall":
+		hf := pickHash(f[1])
+		v := parseElems(f[2:])
+		keep := cloneSeq(v)
+		root := merkle_tree.M(v, hf)
+		var sb strings.Builder
+		sb.WriteString("V:")
+		quiet(func() {
+			for i := range v {
+				proof := merkle_tree.Jx(0, v, types.U32(i), hf)
+				for _, idx := range []int{i, (i + 1) % len(v)} {
+					if merkle_tree.VerifyMerkleProof(v[i], proof, idx, hf, root) {
+						sb.WriteByte('t')
+					} else {
+						sb.WriteByte('f')
+					}
+				}
+			}
+		})
+		return mut(v, keep, sb.String())
+	case "Call":
+		v := parseElems(f[1:])
+		raw := make([][]byte, len(v))
+		for k := range v {
+			raw[k] = []byte(v[k])
+		}
+		keep := cloneSeq(v)
+		parts := make([]string, 0, len(v)+1)
+		for i := 0; i <= len(v); i++ {
+			b, err := ce.VerifConstructMerkleCoPath(raw, uint16(i))
+			if err != nil {
+				parts = append(parts, "err")
+			} else {
+				parts = append(parts, h.Hex(b))
+			}
+		}
+		return mut(v, keep, "P:"+strings.Join(parts, ";"))
 	case "copath":
 		i := h.U(f[1])
 		v := parseElems(f[2:])
